@@ -198,8 +198,10 @@ impl<'a, 'b> PartialEq<Template<'b>> for Template<'a> {
 
             match (&ap.0, &bp.0) {
                 (PartKind::Text { value: ref a }, PartKind::Text { value: ref b }) => {
-                    let a = a.get();
-                    let b = b.get();
+                    // Compare bytes rather than `str`s: the cursors may stop
+                    // in the middle of a multi-byte character
+                    let a = a.get().as_bytes();
+                    let b = b.get().as_bytes();
 
                     let at = &a[ati..];
                     let bt = &b[bti..];
@@ -234,6 +236,17 @@ impl<'a, 'b> PartialEq<Template<'b>> for Template<'a> {
                     }
 
                     ai += 1;
+                    bi += 1;
+
+                    continue;
+                }
+                // An empty text fragment next to a hole doesn't contribute any text
+                (PartKind::Text { value: ref a }, PartKind::Hole { .. }) if a.get().is_empty() => {
+                    ai += 1;
+
+                    continue;
+                }
+                (PartKind::Hole { .. }, PartKind::Text { value: ref b }) if b.get().is_empty() => {
                     bi += 1;
 
                     continue;
